@@ -53,6 +53,9 @@ func execStab(cs []pchunk) string {
 	var all []kept
 	alias := 0
 	for _, c := range cs {
+		if c.dt > 0 { // the connection was idle for dt ms: stalled transfers are re-requested at the next read
+			vp.ShiftTimes(time.Duration(c.dt) * time.Millisecond)
+		}
 		var in []byte
 		if len(c.data) <= len(buf) {
 			n := copy(buf, c.data)
@@ -152,6 +155,28 @@ func genC09(r *fw.Rng, tier string, emit func(fw.Case)) {
 		}
 		emit(fw.Case{Op: "stab", Args: []string{encodeSession(cs)}})
 	}
+	// stalled transfers: the parser builds its re-requests (0x8003) from what it kept of the first package; the packages
+	// delivered earlier must look the same afterwards
+	for i := 0; i < n/15; i++ {
+		t := randTransfer(r, uint16(r.Pick([]int{0x0801, 0x0200, 0x0704})), 5)
+		for len(t.bodies) < 2 {
+			t.bodies = append(t.bodies, r.Bytes(1+r.Intn(40)))
+		}
+		var cs []pchunk
+		have := 1 + r.Intn(len(t.bodies)-1)
+		for k := 1; k <= have; k++ {
+			cs = append(cs, pchunk{0, t.packet(k, r).bytes})
+		}
+		for k := 0; k < 1+r.Intn(3); k++ {
+			cs = append(cs, pchunk{5100 + r.Intn(3000), mkFrame(unfragH(r), frames.RandBody(r, 20)).bytes})
+		}
+		if r.Bool() {
+			for k := have + 1; k <= len(t.bodies); k++ {
+				cs = append(cs, pchunk{0, t.packet(k, r).bytes})
+			}
+		}
+		emit(fw.Case{Op: "stab", Args: []string{encodeSession(cs)}})
+	}
 	// socket level: callbacks keep the *Message they were given and look again after the connection is gone
 	m := 40
 	if tier == "thorough" {
@@ -164,6 +189,17 @@ func genC09(r *fw.Rng, tier string, emit func(fw.Case)) {
 			h := frames.H{ID: uint16(r.Pick([]int{0x0002, 0x0200, 0x0102, 0x0801})), Phone: phone, Serial: uint16(0x1234 + 7*j)} // never equal to the platform serial of the reply (a writer that scribbles its serial over the stored frame must show)
 			body := bytes.Repeat([]byte{byte(0x20 + j)}, 36+r.Intn(3))
 			ws = append(ws, pchunk{0, frames.Build(h, body)})
+			if j == 2 && i%2 == 0 {
+				// a sub-packaged upload in the middle of the traffic: its packages (and the reassembled message, which is
+				// answered) are handed to the callbacks like every other message, package numbers included
+				t := transferSpec{id: 0x0801, phone: phone, serial: uint16(0x4000 + i)}
+				for k := 0; k < 2+r.Intn(2); k++ {
+					t.bodies = append(t.bodies, bytes.Repeat([]byte{byte(0x41 + k)}, 40))
+				}
+				for k := range t.bodies {
+					ws = append(ws, pchunk{0, t.packet(k+1, r).bytes})
+				}
+			}
 		}
 		emit(fw.Case{Op: "stabsock", Args: []string{encodeSession(ws)}})
 	}
